@@ -93,6 +93,12 @@ func main() {
 					}
 				case *ast.ExprStmt:
 					fmt.Printf("   stmt  %s\n", exprKey(x.X))
+					if cl, ok := ast.Unparen(x.X).(*ast.CallExpr); ok {
+						for ai, a := range cl.Args {
+							re, _ := f.Resolve(a, Point{b, bi})
+							fmt.Printf("        arg%d %s -> %s  | keyAt %s | region %v\n", ai, exprKey(a), exprKey(re), f.KeyAt(a, Point{b, bi}), f.regionChain(b))
+						}
+					}
 				case *ast.ReturnStmt:
 					var rs []string
 					for _, e := range x.Results {
